@@ -29,6 +29,7 @@ echo "$ID: demo clean exit=$CLEAN patched exit=$PATCHED; baseline tests missing 
 if [ "$CLEAN" != 0 ] || [ "$PATCHED" = 0 ] || [ "$SUITE" != 0 ]; then echo "$ID: REJECTED (does not meet the criteria)"; exit 1; fi
 # run my checks on /repo with the patch applied, then revert
 cd /repo; git diff --quiet || { echo "/repo not clean"; exit 2; }
+EVSAVE=$(mktemp -d /tmp/evsave_XXXX); cp -r /verif/evidence/. $EVSAVE/ 2>/dev/null
 git apply $SRC/patch.diff
 RES=""
 for P in $PROPS; do
@@ -40,6 +41,7 @@ for P in $PROPS; do
   echo "$OUT" | tail -1
 done
 git checkout -- . ; git -C /repo status --short | grep -v '^??'
+cp -r $EVSAVE/. /verif/evidence/ 2>/dev/null; rm -rf $EVSAVE      # evidence of runs on a mutated tree is never kept
 mkdir -p /verif/seeded/$ID; cp $SRC/patch.diff $SRC/demo.py /verif/seeded/$ID/
 python3 - "$SRC/meta.json" "/verif/seeded/$ID/meta.json" "$RES" "$CLEAN" "$PATCHED" <<'PY'
 import json, sys
